@@ -449,6 +449,8 @@ func (ts *TS) FUn(op string, a *Term) *Term {
 			r = math.Floor(a.F)
 		case "ftrunc":
 			r = math.Trunc(a.F)
+		case "fround":
+			r = math.Round(a.F)
 		case "fsqrt":
 			r = math.Sqrt(a.F)
 		case "flog10":
